@@ -18,6 +18,7 @@ EXPLANATION = (
     "C01.c: on the found edge of each digest lookup every path to the next iteration / Ok passes through the insert or push of the unpacked value, or an Err. "
     "C01.d: the `cnf` member is added only on the holder_key == Some edge, and self.holder_key is assigned from this call's holder_key argument on every path before the payload is assembled. "
     "The round-trip equality over all claim trees, strategies and selections is a statement about runtime values and is not decided."
+    " C01.f: in the holder's selection walkers every recursive call hands the callee's claims parameter something derived from the caller's claims (or a disclosure reached through it) and the selection parameter something derived from the caller's selection (zip-component-aware provenance): no swapped or mixed arguments. The full walker has no exit that returns a JSON array/object parameter unprocessed (A6 over the kind switch)."
 )
 ASSUMPTIONS = [
     "only the three structural clauses are claimed; equality of verified_claims with the selected view is not decided by any static argument available here",
